@@ -70,6 +70,16 @@ const OPS = {
   tupleElemN: { arity: 2, decl: (n, s) => `type ${n} = [${s[0]}, ${s[1]}];`, src: (s, n) => `${n}[number]`, ctors: (c) => c[0].concat(c[1]), samples: (x) => x[0].concat(x[1]) },
   objElem: { arity: 1, decl: (n, s) => `type ${n} = { k: ${s[0]}; other: symbol };`, src: (s, n) => `${n}['k']`, ctors: (c) => c[0], samples: (x) => x[0] },
   ifaceElem: { arity: 1, decl: (n, s) => `interface ${n} { k: ${s[0]}; other: symbol }`, src: (s, n) => `${n}['k']`, ctors: (c) => c[0], samples: (x) => x[0] },
+  // further indexed-access forms: `string` index and union keys select several members, a method member is a function,
+  // Array<T>[number], an optional tuple element, a key given through an alias
+  objElemString: { arity: 2, decl: (n, s) => `type ${n} = { k: ${s[0]}; j: ${s[1]} };`, src: (s, n) => `${n}[string]`, ctors: (c) => c[0].concat(c[1]), samples: (x) => x[0].concat(x[1]) },
+  objElemUnionKey: { arity: 2, decl: (n, s) => `type ${n} = { k: ${s[0]}; 'j-2': ${s[1]}; other: symbol };`, src: (s, n) => `${n}['k' | 'j-2']`, ctors: (c) => c[0].concat(c[1]), samples: (x) => x[0].concat(x[1]) },
+  ifaceElemUnionKey: { arity: 2, decl: (n, s) => `interface ${n} { k: ${s[0]}; j: ${s[1]}; other: symbol }\ntype ${n}K = 'k' | 'j';`, src: (s, n) => `${n}[${n}K]`, ctors: (c) => c[0].concat(c[1]), samples: (x) => x[0].concat(x[1]) },
+  ifaceElemString: { arity: 2, decl: (n, s) => `interface ${n} { k: ${s[0]}; j?: ${s[1]} }`, src: (s, n) => `${n}[string]`, ctors: (c) => c[0].concat(c[1]), samples: (x) => x[0].concat(x[1]) },
+  methodElem: { arity: 1, decl: (n, s) => `type ${n} = { m(): void; k: ${s[0]} };`, src: (s, n) => `${n}['m' | 'k']`, ctors: (c) => ['Function'].concat(c[0]), samples: (x) => [() => {}].concat(x[0]) },
+  ifaceMethodElem: { arity: 1, decl: (n, s) => `interface ${n} { m(): void; get k(): ${s[0]} }`, src: (s, n) => `${n}['m' | 'k']`, ctors: (c) => ['Function'].concat(c[0]), samples: (x) => [() => {}].concat(x[0]) },
+  arrayGenericElem: { arity: 1, src: (s) => `Array<${s[0]}>[number]`, ctors: (c) => c[0], samples: (x) => x[0] },
+  tupleOptElem: { arity: 2, decl: (n, s) => `type ${n} = [${s[0]}, (${s[1]})?];`, src: (s, n) => `${n}[number]`, ctors: (c) => c[0].concat(c[1]), samples: (x) => x[0].concat(x[1]) },
   // conservative wrappers: the statement gives "the union of their parts"; only the inhabitants clause is judged
   exclude: { arity: 2, loose: true, src: (s) => `Exclude<${s[0]} | ${s[1]}, ${s[1]}>`, ctors: (c) => c[0].concat(c[1]), samples: (x) => x[0] },
   extract: { arity: 2, loose: true, src: (s) => `Extract<${s[0]} | ${s[1]}, ${s[0]}>`, ctors: (c) => c[0].concat(c[1]), samples: (x) => x[0] },
